@@ -62,12 +62,36 @@ def spec(fn):
     return fn
 
 
+class Ex(Fraction):
+    """exact rational that also combines with Decimal (and float) operands: the result stays exact"""
+
+    @staticmethod
+    def _c(o):
+        if isinstance(o, (Decimal, float)):
+            return Fraction(o)
+        return o
+
+    def _w(r):
+        return Ex(r) if isinstance(r, Fraction) and not isinstance(r, Ex) else r
+
+    def __add__(self, o): return Ex._w(Fraction.__add__(self, Ex._c(o)))
+    def __radd__(self, o): return Ex._w(Fraction.__radd__(self, Ex._c(o)))
+    def __sub__(self, o): return Ex._w(Fraction.__sub__(self, Ex._c(o)))
+    def __rsub__(self, o): return Ex._w(Fraction.__rsub__(self, Ex._c(o)))
+    def __mul__(self, o): return Ex._w(Fraction.__mul__(self, Ex._c(o)))
+    def __rmul__(self, o): return Ex._w(Fraction.__rmul__(self, Ex._c(o)))
+    def __truediv__(self, o): return Ex._w(Fraction.__truediv__(self, Ex._c(o)))
+    def __rtruediv__(self, o): return Ex._w(Fraction.__rtruediv__(self, Ex._c(o)))
+    def __neg__(self): return Ex(Fraction.__neg__(self))
+    def __abs__(self): return Ex(Fraction.__abs__(self))
+    def __pow__(self, o): return Ex._w(Fraction.__pow__(self, o))
+    __hash__ = Fraction.__hash__
+
+
 def exact(x):
-    """Spec-side arithmetic is exact: natively a Fraction (so that evaluating a *specification* never
-    rounds at the repo's 35-digit Decimal context); symbolically a real (model in interp)."""
-    if isinstance(x, float):
-        return Fraction(x)
-    return Fraction(x)
+    """Spec-side arithmetic is exact: natively a rational (so that evaluating a *specification* never rounds at the repo's
+    35-digit Decimal context) that combines with Decimal operands; symbolically a real (model in interp)."""
+    return Ex(Fraction(x))
 
 
 class FnContract:
@@ -359,7 +383,10 @@ class ConcreteScenario(ScenarioBase):
             v = list(vals)
         if elem_pre is not None:
             for i in range(len(vals)):
-                c = elem_pre(v, i)
+                try:
+                    c = elem_pre(v, i)
+                except IndexError:          # the element precondition mentions a neighbour beyond the end: nothing to require there
+                    continue
                 ok = all(c.values()) if isinstance(c, dict) else bool(c)
                 if not ok:
                     self.rejected = True
